@@ -2,6 +2,41 @@
 // prints what it observed, one JSON line per case.  Names of a case are
 // reported as ranks in the sorted order of the case's name universe, so that
 // string order on names is numeric order on ids.
+//
+// Usage-pattern audit (round 3): exported API of shanhu.io/g/dags, its state,
+// and which stream uses it how.
+//
+//  API / callback / state              | shapes                                      | exercised by
+//  ------------------------------------+---------------------------------------------+---------------------------------------------
+//  NewGraph(nodes)                     | empty map, isolated nodes, disconnected,    | corpus-*, small-dangling (all graphs <= 3 nodes
+//                                      | self loops, duplicate / unsorted entries,   | + one non-node name), all-4-nodes (65 536),
+//                                      | dangling targets; nil map NOT exercised     | dag-sparse/dense/layered, cyclic-*, malformed
+//  CheckDAG / NewMap / TopoSort        | ok / missing / circle; the three must agree | every case ("agree"); one process runs thousands
+//   state: Map (per call), nhit/layer  |                                             | of graphs in a row (per-process state would show)
+//   scratch fields in MapNode          |                                             |
+//  Graph.Reverse (twice)               | dangling names become nodes; lists sorted   | every case (r2)
+//  Graph.Remove(node)                  | node, non-node name, dangling name          | ops (every general-family graph <= 40 nodes) [new]
+//  Graph.SubGraph(f)                   | f: accepts none / some / all / names that   | ops [new]; f is a pure set test; calls counted
+//                                      | are no nodes                                |
+//  Graph.Rename(f)                     | f returns name / ("", err) / (name, err) /  | ops [new]; non-injective: weak oracle only (which
+//                                      | two nodes one name; dangling target         | list survives depends on map order)
+//  Closure(m, names)                   | one / several / no names, an unknown name   | ops [new]; called on a Map that has been laid out
+//                                      | (panic); on a Map already laid out          | twice and reversed twice
+//  LayoutMap(m)                        | fresh Map; the SAME Map a second time       | every accepted case; ops "re" [new]
+//   state: layer/x/y in MapNode        | (layers already pushed, x/y set); a Map     | ops "seq" [new]: call sequences on ONE Map object
+//   (per Map, survives the call)       | that was REVERSED before; the Map returned  | N|Y|V then R/L/S (NRL, NLRL, YRL, VL, VRL, NRLRL, ...),
+//                                      | by Layout / RevLayout                       | every layout checked w.r.t. the map's orientation
+//                                      |                                             | at that moment, and against layout_from in Coq
+//  Map.Reverse (twice), RevLayout      | after LayoutMap; before LayoutMap           | every accepted case (maprev2, revbad); ops "seq"
+//  Map.SortedLayers / SortedNodes      | before LayoutMap (after: pushed layers,     | every accepted case (layers, topo)
+//                                      | NOT compared)                               |
+//  AllInsSorted(node)                  | before LayoutMap                            | ops "ais" [new] (oracle only)
+//  LayoutJSON / Output / marshalMap    | DisplayName empty                           | ops "jsonbad" [new]; AssignDisplayName, RevLayoutJSON,
+//                                      |                                             | NewRepo: NOT exercised (presentation only)
+//  thresholds in the anchored files    | nhit == len(Ins); layer == Nlayer-1;        | all sides by all-4-nodes + random (push needs >= 6
+//                                      | out.layer > layer+1; tak[y-2], tak[y+2];    | nodes: dag-layered, corpus-push-paths)
+//                                      | offset loop in findY; (sum+n/2)/n rounding  |
+//  concurrency                         | none in the package                         | -
 package main
 
 import (
@@ -58,9 +93,60 @@ type Obs struct {
 	MapRev2 bool      `json:"maprev2"`        // Map.Reverse twice restores every exported set
 	RevBad  string    `json:"revbad,omitempty"` // what is wrong with RevLayout(g), if anything
 	Crash   string    `json:"crash,omitempty"`
+	Ops     *OpsObs   `json:"ops,omitempty"`
+}
+
+// OpsIn are the parameters of the derived-graph entry points run on a case
+// (round 3): Graph.Remove / SubGraph / Rename, Closure, a second LayoutMap on
+// the same Map, AllInsSorted, LayoutJSON.
+type OpsIn struct {
+	Rm      int   `json:"rm"`            // id of the node to remove (may be a name that is no node)
+	Sub     []int `json:"sub"`           // ids the SubGraph filter accepts (may name non-nodes)
+	Ren     []int `json:"ren"`           // Rename: new id per key position (ids of a second universe r000..)
+	RenErr  int   `json:"renerr"`        // key position whose callback returns an error, -1 none
+	ErrName bool  `json:"errname"`       // ... together with a non-empty name
+	Inj     bool  `json:"inj"`           // Ren is injective
+	Clo     []int `json:"clo"`           // Closure(m, names of these ids)
+	AisOf   int   `json:"aisof"`         // AllInsSorted of this key position
+	Seq     string `json:"seq,omitempty"` // calls on ONE Map object: N NewMap | Y Layout | V RevLayout (first), then R Map.Reverse, L LayoutMap, S SortedLayers
+}
+
+// SeqObs is what one step of a call sequence on one Map object showed.
+type SeqObs struct {
+	Op     string    `json:"op"`               // Y V L S R
+	Flip   bool      `json:"flip"`             // the Map is currently reversed w.r.t. the graph of the case
+	Nodes  []NodeObs `json:"nodes,omitempty"`  // L, Y, V: x, y per node
+	WH     [2]int    `json:"wh"`
+	Layers [][]int   `json:"layers,omitempty"` // S
+	Bad    string    `json:"bad,omitempty"`    // panic text
+}
+
+type GObs struct {
+	G  []Entry `json:"g"`           // the derived graph, keys sorted
+	V  string  `json:"v"`           // CheckDAG of it: ok | missing | circle | other
+	E  string  `json:"e,omitempty"` // Rename: "" | ferr | missing | other
+	Nl bool    `json:"nil,omitempty"`
+}
+
+type OpsObs struct {
+	Rm      *GObs     `json:"rm"`
+	Sub     *GObs     `json:"sub"`
+	Ren     *GObs     `json:"ren"`
+	Calls   int       `json:"calls"`             // how often the SubGraph filter was called
+	InSame  bool      `json:"insame"`            // the input graph is unchanged after all of it
+	CloBad  string    `json:"clobad,omitempty"`  // "panic: ..." from Closure
+	Clo     []NodeObs `json:"clo,omitempty"`     // Closure(m, ...) node sets (x, y unused)
+	CloN    [3]int    `json:"clon"`              // its Nedge, Ncrit, Nlayer
+	Ais     []int     `json:"ais"`               // AllInsSorted
+	Re      []NodeObs `json:"re,omitempty"`      // second LayoutMap on the same Map: x, y (sets unused)
+	ReWH    [2]int    `json:"rewh"`
+	ReSets  bool      `json:"resets"`            // the node sets survived the second layout
+	JSONBad string    `json:"jsonbad,omitempty"` // LayoutJSON differs from the view
+	Seq     []SeqObs  `json:"seq,omitempty"`     // the call sequence on one Map object
 }
 
 type Case struct {
+	Ops    *OpsIn   `json:"ops,omitempty"`
 	I      int      `json:"i"`
 	Stream string   `json:"s"`
 	Fam    string   `json:"f"`              // "m": mask family, "g": general family
@@ -232,6 +318,41 @@ func corpus() []Case {
 	c.Keys = []int{0, 1}
 	cs = append(cs, c)
 	cs = append(cs, general("corpus-shapes", []string{}, [][]int{}))
+	// round 3: the derived-graph entry points on fixed graphs.  a->b->c->d, a->d, e isolated, b->zz dangling.
+	withOps := func(c Case, in OpsIn) Case {
+		if in.Sub == nil {
+			in.Sub = []int{}
+		}
+		if in.Ren == nil {
+			in.Ren = []int{}
+		}
+		if in.Clo == nil {
+			in.Clo = []int{}
+		}
+		c.Ops = &in
+		return c
+	}
+	diamond := func() Case {
+		return general("corpus-ops", []string{"a", "b", "c", "d", "e"}, [][]int{{1, 3}, {2}, {3}, {}, {}})
+	}
+	for _, sq := range []string{"NRL", "YRL", "VL", "NLRLRL", "VRLS"} {
+		cs = append(cs, withOps(diamond(), OpsIn{Rm: 1, Sub: []int{0, 2, 3}, Ren: []int{4, 3, 2, 1, 0}, RenErr: -1, Inj: true, Clo: []int{0, 3}, AisOf: 3, Seq: sq}))
+	}
+	cs = append(cs, withOps(diamond(), OpsIn{Rm: 1, Sub: []int{0, 2, 3}, Ren: []int{4, 3, 2, 1, 0}, RenErr: -1, Inj: true, Clo: []int{0, 3}, AisOf: 3}))
+	cs = append(cs, withOps(diamond(), OpsIn{Rm: 3, Sub: []int{}, Ren: []int{0, 1, 2, 3, 4}, RenErr: 2, ErrName: true, Inj: true, Clo: []int{1}, AisOf: 0}))
+	cs = append(cs, withOps(diamond(), OpsIn{Rm: 4, Sub: []int{0, 1, 2, 3, 4}, Ren: []int{7, 7, 2, 3, 4}, RenErr: -1, Inj: false, Clo: []int{0, 2}, AisOf: 2}))
+	cs = append(cs, withOps(diamond(), OpsIn{Rm: 0, Sub: []int{4}, Ren: []int{0, 1, 2, 3, 4}, RenErr: 0, ErrName: false, Inj: true, Clo: []int{4, 5}, AisOf: 4}))
+	cs = append(cs, withOps(diamond(), OpsIn{Rm: 2, Sub: []int{1, 3}, Ren: []int{9, 8, 7, 6, 5}, RenErr: -1, Inj: true, Clo: []int{}, AisOf: 1}))
+	{
+		// dangling target zz and a cycle b->c->b: Remove keeps the dangling name, SubGraph drops it,
+		// Rename reports it; removing c makes the rest acyclic
+		c := general("corpus-ops", []string{"a", "b", "c", "zz"}, [][]int{{1}, {2, 3}, {1}})
+		c.Keys = []int{0, 1, 2}
+		cs = append(cs, withOps(c, OpsIn{Rm: 2, Sub: []int{0, 1, 3}, Ren: []int{0, 1, 2}, RenErr: -1, Inj: true, AisOf: -1}))
+		c2 := general("corpus-ops", []string{"a", "b", "c", "zz"}, [][]int{{1}, {2, 3}, {1}})
+		c2.Keys = []int{0, 1, 2}
+		cs = append(cs, withOps(c2, OpsIn{Rm: 3, Sub: []int{0, 1, 2, 3}, Ren: []int{2, 1, 0}, RenErr: -1, Inj: true, AisOf: -1}))
+	}
 	return cs
 }
 
@@ -434,8 +555,13 @@ func genCases(seed uint64, nrand int, n4 bool, big bool) []Case {
 		}
 	}
 	cs = append(cs, random(seed, nrand, big)...)
+	ro := hx.NewRng(seed*0x9e3779b97f4a7c15 + 0x5851f42d)
 	for i := range cs {
 		cs[i].I = i
+		if cs[i].Ops == nil && cs[i].Fam == "g" && len(cs[i].Keys) <= 40 && !strings.HasPrefix(cs[i].Stream, "corpus-circle") &&
+			!strings.HasPrefix(cs[i].Stream, "corpus-push") {
+			genOps(ro, &cs[i])
+		}
 	}
 	return cs
 }
@@ -570,6 +696,10 @@ func observe(c *Case) *Obs {
 		}
 	}
 
+	if c.Ops != nil {
+		o.Ops = graphOps(c, nodes, uni, idx)
+	}
+
 	if o.V != "ok" || err != nil {
 		return o
 	}
@@ -586,6 +716,12 @@ func observe(c *Case) *Obs {
 	o.Topo = idList(idx, topo)
 
 	before := snapshot(idx, m)
+	if c.Ops != nil && c.Ops.AisOf >= 0 && c.Ops.AisOf < len(c.Keys) {
+		o.Ops.Ais = []int{}
+		for _, n := range dags.AllInsSorted(m.Nodes[uni[c.Keys[c.Ops.AisOf]]]) {
+			o.Ops.Ais = append(o.Ops.Ais, idx[n.Name])
+		}
+	}
 	view := dags.LayoutMap(m)
 	o.W, o.H = view.Width, view.Height
 	var ks []string
@@ -613,6 +749,9 @@ func observe(c *Case) *Obs {
 	}
 
 	o.RevBad = checkRevLayout(g, idx, before, o)
+	if c.Ops != nil {
+		mapOps(c, g, m, view, uni, idx, before, o.Ops)
+	}
 
 	// Map.Reverse twice restores the sets
 	m.Reverse()
@@ -630,6 +769,323 @@ func observe(c *Case) *Obs {
 	return o
 }
 
+
+// ---------------------------------------------------------------- round 3: derived graphs, Closure, reuse of a Map
+
+func entriesOf(g *dags.Graph, idx map[string]int) []Entry {
+	var ks []string
+	for k := range g.Nodes {
+		ks = append(ks, k)
+	}
+	sort.Slice(ks, func(i, j int) bool { return idx[ks[i]] < idx[ks[j]] })
+	out := []Entry{}
+	for _, k := range ks {
+		out = append(out, Entry{K: idx[k], Adj: idList(idx, g.Nodes[k])})
+	}
+	return out
+}
+
+func gobs(g *dags.Graph, idx map[string]int) *GObs {
+	v, _ := classify(dags.CheckDAG(g), idx)
+	return &GObs{G: entriesOf(g, idx), V: v}
+}
+
+func copyNodes(nodes map[string][]string) map[string][]string {
+	out := make(map[string][]string, len(nodes))
+	for k, l := range nodes {
+		out[k] = append([]string(nil), l...)
+	}
+	return out
+}
+
+func sameNodes(a, b map[string][]string) bool {
+	if len(a) != len(b) {
+		return false
+	}
+	for k, l := range a {
+		l2, ok := b[k]
+		if !ok || len(l) != len(l2) {
+			return false
+		}
+		for i := range l {
+			if l[i] != l2[i] {
+				return false
+			}
+		}
+	}
+	return true
+}
+
+type renameErr struct{}
+
+func (renameErr) Error() string { return "rename callback failed" }
+
+// graphOps runs Remove, SubGraph and Rename on the graph of the case.
+func graphOps(c *Case, nodes map[string][]string, uni []string, idx map[string]int) *OpsObs {
+	in := c.Ops
+	oo := &OpsObs{}
+	orig := copyNodes(nodes)
+	g := dags.NewGraph(nodes)
+	name := func(id int) string {
+		if id >= 0 && id < len(uni) {
+			return uni[id]
+		}
+		return "no-such-name"
+	}
+	oo.Rm = gobs(g.Remove(name(in.Rm)), idx)
+
+	keep := map[string]bool{}
+	for _, id := range in.Sub {
+		keep[name(id)] = true
+	}
+	oo.Sub = gobs(g.SubGraph(func(s string) bool { oo.Calls++; return keep[s] }), idx)
+
+	// Rename into the universe r000, r001, ...
+	ridx := map[string]int{}
+	rname := func(j int) string {
+		s := fmt.Sprintf("r%03d", j)
+		ridx[s] = j
+		return s
+	}
+	to := map[string]string{}
+	errKey := ""
+	for p, k := range c.Keys {
+		if p < len(in.Ren) {
+			to[uni[k]] = rname(in.Ren[p])
+		}
+		if p == in.RenErr {
+			errKey = uni[k]
+		}
+	}
+	func() {
+		defer func() {
+			if e := recover(); e != nil {
+				oo.Ren = &GObs{E: "other", V: "other"}
+			}
+		}()
+		rg, err := g.Rename(func(s string) (string, error) {
+			if errKey != "" && s == errKey {
+				if in.ErrName {
+					return to[s], renameErr{} // a result AND an error
+				}
+				return "", renameErr{}
+			}
+			return to[s], nil
+		})
+		switch {
+		case err != nil:
+			oo.Ren = &GObs{G: []Entry{}, V: "other", Nl: rg == nil}
+			if _, ok := err.(renameErr); ok {
+				oo.Ren.E = "ferr"
+			} else if strings.Contains(err.Error(), "missing in keys") {
+				oo.Ren.E = "missing"
+			} else {
+				oo.Ren.E = "other"
+			}
+		case rg == nil:
+			oo.Ren = &GObs{G: []Entry{}, V: "other", E: "other", Nl: true}
+		default:
+			oo.Ren = gobs(rg, ridx)
+		}
+	}()
+	oo.InSame = sameNodes(orig, nodes)
+	return oo
+}
+
+// mapOps: a second LayoutMap on the same Map, LayoutJSON, and Closure on a Map
+// that has been laid out twice and reversed twice.
+func mapOps(c *Case, g *dags.Graph, m *dags.Map, view *dags.MapView, uni []string, idx map[string]int,
+	before map[string][6][]int, oo *OpsObs) {
+	in := c.Ops
+	view2 := dags.LayoutMap(m)
+	oo.ReWH = [2]int{view2.Width, view2.Height}
+	var ks []string
+	for k := range m.Nodes {
+		ks = append(ks, k)
+	}
+	sort.Strings(ks)
+	for _, k := range ks {
+		no := NodeObs{Name: idx[k], X: -1, Y: -1}
+		if nv := view2.Nodes[k]; nv != nil {
+			no.X, no.Y = nv.X, nv.Y
+		}
+		oo.Re = append(oo.Re, no)
+	}
+	after := snapshot(idx, m)
+	oo.ReSets = len(after) == len(before)
+	for k, b := range before {
+		for i := 0; i < 6; i++ {
+			if !sameInts(after[k][i], b[i]) {
+				oo.ReSets = false
+			}
+		}
+	}
+
+	// LayoutJSON of the same graph: the serialised form of the first view
+	if bs, err := dags.LayoutJSON(g); err != nil {
+		oo.JSONBad = "error: " + err.Error()
+	} else {
+		var jm dags.M
+		if err := json.Unmarshal(bs, &jm); err != nil {
+			oo.JSONBad = "not JSON: " + err.Error()
+		} else if jm.Height != view.Height || jm.Width != view.Width || len(jm.Nodes) != len(view.Nodes) {
+			oo.JSONBad = "height, width or node count"
+		} else {
+			for k, nv := range view.Nodes {
+				jn := jm.Nodes[k]
+				if jn == nil || jn.X != nv.X || jn.Y != nv.Y || jn.F != k || jn.N != k ||
+					!sameInts(idList(idx, jn.Ins), idList(idx, nv.CritIns)) ||
+					!sameInts(idList(idx, jn.Outs), idList(idx, nv.CritOuts)) {
+					oo.JSONBad = "node " + k
+				}
+			}
+		}
+	}
+
+	if in.Seq != "" {
+		oo.Seq = runSeq(in.Seq, g, idx)
+	}
+
+	// Closure
+	var names []string
+	for _, id := range in.Clo {
+		if id >= 0 && id < len(uni) {
+			names = append(names, uni[id])
+		} else {
+			names = append(names, "no-such-name")
+		}
+	}
+	func() {
+		defer func() {
+			if e := recover(); e != nil {
+				oo.CloBad = fmt.Sprintf("panic: %v", e)
+			}
+		}()
+		cm := dags.Closure(m, names)
+		oo.CloN = [3]int{cm.Nedge, cm.Ncrit, cm.Nlayer}
+		snap := snapshot(idx, cm)
+		var cks []string
+		for k := range cm.Nodes {
+			cks = append(cks, k)
+		}
+		sort.Slice(cks, func(i, j int) bool { return idx[cks[i]] < idx[cks[j]] })
+		oo.Clo = []NodeObs{}
+		for _, k := range cks {
+			sn := snap[k]
+			oo.Clo = append(oo.Clo, NodeObs{Name: idx[k], Ins: sn[0], Outs: sn[1], AI: sn[2], AO: sn[3], CI: sn[4], CO: sn[5],
+				VCI: []int{}, VCO: []int{}})
+		}
+	}()
+}
+
+// runSeq performs a call sequence on ONE Map object and records every layout
+// it produces together with the Map's orientation at that moment.
+func runSeq(seq string, g *dags.Graph, idx map[string]int) (out []SeqObs) {
+	viewObs := func(op string, flip bool, v *dags.MapView) SeqObs {
+		so := SeqObs{Op: op, Flip: flip, WH: [2]int{v.Width, v.Height}}
+		var ks []string
+		for k := range v.Nodes {
+			ks = append(ks, k)
+		}
+		sort.Slice(ks, func(i, j int) bool { return idx[ks[i]] < idx[ks[j]] })
+		for _, k := range ks {
+			so.Nodes = append(so.Nodes, NodeObs{Name: idx[k], X: v.Nodes[k].X, Y: v.Nodes[k].Y})
+		}
+		return so
+	}
+	defer func() {
+		if e := recover(); e != nil {
+			out = append(out, SeqObs{Op: "!", Bad: fmt.Sprintf("panic: %v", e)})
+		}
+	}()
+	var m *dags.Map
+	flip := false
+	for i, op := range seq {
+		switch {
+		case i == 0 && op == 'N':
+			m, _ = dags.NewMap(g)
+		case i == 0 && op == 'Y':
+			var v *dags.MapView
+			m, v, _ = dags.Layout(g)
+			out = append(out, viewObs("Y", flip, v))
+		case i == 0 && op == 'V':
+			var v *dags.MapView
+			m, v, _ = dags.RevLayout(g)
+			out = append(out, viewObs("V", flip, v))
+		case op == 'R':
+			m.Reverse()
+			flip = !flip
+			out = append(out, SeqObs{Op: "R", Flip: flip})
+		case op == 'L':
+			out = append(out, viewObs("L", flip, dags.LayoutMap(m)))
+		case op == 'S':
+			so := SeqObs{Op: "S", Flip: flip}
+			for _, layer := range m.SortedLayers() {
+				l := []int{}
+				for _, n := range layer {
+					l = append(l, idx[n.Name])
+				}
+				so.Layers = append(so.Layers, l)
+			}
+			out = append(out, so)
+		}
+	}
+	return out
+}
+
+// genOps draws the parameters of the derived-graph entry points for a case.
+func genOps(r *hx.Rng, c *Case) {
+	nk := len(c.Keys)
+	nu := len(c.Names)
+	in := &OpsIn{Rm: -1, RenErr: -1, AisOf: -1, Inj: true, Sub: []int{}, Ren: []int{}, Clo: []int{}}
+	if nu > 0 {
+		in.Rm = r.Intn(nu) // sometimes a name that is not a node
+	}
+	if nk > 0 && r.Intn(4) != 0 {
+		in.Rm = c.Keys[r.Intn(nk)]
+	}
+	for id := 0; id < nu; id++ {
+		if r.Intn(3) != 0 {
+			in.Sub = append(in.Sub, id)
+		}
+	}
+	// injective by default: a random injection into 0..2nk
+	pm := perm(r, 2*nk+1)
+	for p := 0; p < nk; p++ {
+		in.Ren = append(in.Ren, pm[p])
+	}
+	if nk >= 2 && r.Intn(6) == 0 {
+		in.Inj = false
+		in.Ren[r.Intn(nk)] = in.Ren[r.Intn(nk)]
+		seen := map[int]bool{}
+		in.Inj = true
+		for _, x := range in.Ren {
+			if seen[x] {
+				in.Inj = false
+			}
+			seen[x] = true
+		}
+	}
+	if nk > 0 && r.Intn(4) == 0 {
+		in.RenErr = r.Intn(nk)
+		in.ErrName = r.Bool()
+	}
+	if nk > 0 {
+		in.AisOf = r.Intn(nk)
+		for k := 1 + r.Intn(3); k > 0; k-- {
+			in.Clo = append(in.Clo, c.Keys[r.Intn(nk)])
+		}
+		if r.Intn(12) == 0 {
+			in.Clo = append(in.Clo, nu) // not a name at all: Closure panics
+		}
+		if r.Intn(12) == 0 {
+			in.Clo = []int{}
+		}
+	}
+	seqs := []string{"NRL", "NLRL", "YRL", "VL", "VRL", "NRLRL", "NLL", "YRLS", "NRSL", "VLRL", "NLRLL", "YLRL"}
+	in.Seq = seqs[r.Intn(len(seqs))]
+	c.Ops = in
+}
 
 // ---------------------------------------------------------------- exhaustive family with in-harness oracles
 
